@@ -139,6 +139,8 @@ def run_property(prop, spec, tier, seed, only=None, jobs=10):
         validate_sequential(res, mir_path, prop, spec, tier, jobs)
     if model == "events" and not only:
         validate_sequential_events(res, mir_path, extra, prop, tier, jobs)
+    if model == "region_cached" and not only:
+        validate_sequential_rc(res, mir_path, prop, tier, jobs)
     fnset = set()
     for (name, wargs), d in zip(scs, results):
         v = d.get("verdict")
@@ -233,6 +235,101 @@ def validate_sequential(res, mir_path, prop, spec, tier, jobs):
     res["totals"]["traces_validated"] += ok
     res["samples"].append(dict(engine="mirproto", kind="sequential translation validation", cases=len(cases), agreeing=ok,
                                compared=list(keys), example=dict(scenario="S:%s|R:%s" % (cases[0][0], ",".join(cases[0][1])), order=cases[0][2], model=out[0][0].get("final"), native=out[0][1])))
+    print("[mirproto] sequential validation against the real code: %d/%d orders agree" % (ok, len(cases)), flush=True)
+
+
+def validate_sequential_rc(res, mir_path, prop, tier, jobs):
+    """Translation validation for the region_cached model: every single-region scenario, its operations run one at a
+    time in EVERY order that respects the thread programs - in the model (pinned schedule) and on the real crate
+    through the public API (native/region_cached_seq); the values the reads return must agree."""
+    import shutil
+    from mirproto import region_cached_model as RC
+    nd = os.path.join(VERIF, "native", "region_cached_seq")
+    cache = os.environ.get("FOLO_VERIF_CACHE") or os.path.join(VERIF, ".cache")
+    work = os.path.join(cache, "native_src", "region_cached_seq")
+    tdir = os.path.join(cache, "native", "region_cached_seq")
+    try:
+        shutil.rmtree(work, ignore_errors=True)
+        shutil.copytree(nd, work, ignore=shutil.ignore_patterns("target", "Cargo.lock"))
+        ct = os.path.join(work, "Cargo.toml")
+        txt = open(ct).read().replace('"/repo/packages/', '"%s/packages/' % M.REPO)
+        open(ct, "w").write(txt)
+        shutil.copyfile(os.path.join(M.REPO, "Cargo.lock"), os.path.join(work, "Cargo.lock"))
+        env = dict(os.environ)
+        env["CARGO_NET_OFFLINE"] = "true"
+        env.pop("RUSTFLAGS", None)
+        b = subprocess.run(["cargo", "build", "-q", "--offline", "--target-dir", tdir], cwd=work, env=env, capture_output=True, text=True, timeout=1200)
+        exe = os.path.join(tdir, "debug", "folo_verif_region_cached_seq")
+        if b.returncode != 0 or not os.path.exists(exe):
+            res["noverdict"].append(("sequential-validation", "native build failed: " + b.stderr[-400:]))
+            return
+    except Exception as e:  # noqa: BLE001
+        res["noverdict"].append(("sequential-validation", str(e)[-400:]))
+        return
+
+    def orders(progs):
+        out = []
+
+        def go(pos, acc):
+            if all(pos[t] == len(progs[t]) for t in range(len(progs))):
+                out.append(list(acc))
+                return
+            for t in range(len(progs)):
+                if pos[t] < len(progs[t]):
+                    pos[t] += 1
+                    acc.append(t)
+                    go(pos, acc)
+                    acc.pop()
+                    pos[t] -= 1
+        go([0] * len(progs), [])
+        return out
+    cases = []
+    for sc in (RC.QUICK if tier == "quick" else RC.THOROUGH):
+        n, ini, progs = sc[:3]
+        if n != 1:
+            continue
+        for o in orders(progs):
+            cases.append((sc, o))
+    out = [None] * len(cases)
+    sem = threading.Semaphore(jobs)
+
+    def go(i, sc, o):
+        with sem:
+            n, ini, progs = sc[:3]
+            d = worker(["scenario", "--mir", mir_path, "--prop", prop, "--model", "region_cached", "--programs", json.dumps(sc[:3]),
+                        "--pin", ",".join(map(str, o)), "--kcap", "160", "--timeout", "600"], 1500)
+            pos = [0] * len(progs)
+            ops = []
+            for t in o:
+                it = progs[t][pos[t]]
+                pos[t] += 1
+                ops.append("s" if it == "set" else "r")
+            try:
+                nres = subprocess.run([exe, "warm" if ini[0] == "ready0" else "cold", ",".join(ops)], capture_output=True, text=True, timeout=60)
+                nat = json.loads(nres.stdout.strip().splitlines()[-1]) if nres.returncode == 0 else dict(error="native rc=%s %s" % (nres.returncode, nres.stderr[-200:]))
+            except Exception as e:  # noqa: BLE001
+                nat = dict(error=str(e))
+            out[i] = (d, nat, ops)
+    ths = [threading.Thread(target=go, args=(i,) + c) for i, c in enumerate(cases)]
+    for th in ths:
+        th.start()
+    for th in ths:
+        th.join()
+    ok = 0
+    for (sc, o), (d, nat, ops) in zip(cases, out):
+        name = "%s order %s" % (RC.prog_name(sc), ",".join(map(str, o)))
+        if d.get("verdict") != "pinned":
+            res["noverdict"].append(("sequential-validation " + name, "model: %s %s" % (d.get("verdict"), str(d.get("detail"))[:200])))
+            continue
+        fin = d["final"]
+        if nat.get("error") or fin.get("bad") or fin.get("reads") != nat.get("reads"):
+            res["noverdict"].append(("sequential-validation " + name, "model and real code disagree: model reads %s (bad=%s), native %s" % (fin.get("reads"), fin.get("bad"), nat)))
+        else:
+            ok += 1
+    res["totals"]["traces_validated"] += ok
+    if cases:
+        res["samples"].append(dict(engine="mirproto", kind="sequential translation validation (model vs real crate through the public API)", cases=len(cases), agreeing=ok,
+                                   compared=["value returned by every read"], example=dict(scenario=RC.prog_name(cases[0][0]), order=cases[0][1], ops=out[0][2], model=out[0][0].get("final"), native=out[0][1])))
     print("[mirproto] sequential validation against the real code: %d/%d orders agree" % (ok, len(cases)), flush=True)
 
 
